@@ -1076,4 +1076,187 @@ example : ¬ sciRealAst.Accepts "1e".toList := by decide
 example : ¬ sciRealAst.Accepts "1.5e+".toList := by decide
 example : ¬ sciRealAst.Accepts "1e5.5".toList := by decide
 
+/-! ## ipv4_address — soundness half only (`_partial`)
+
+Full statement (NOT proved): `ipv4Ast.Accepts s ↔ IsIpv4 s`.  Proved here: `→` (everything the pattern accepts is
+four octets of the pattern's exact policy separated by dots).  Missing: `←`, i.e. that for every such string the
+*preferred* match is the full one (needs the greedy-first argument through the backtracking octet alternatives). -/
+
+theorem mem_set_ends (cs : CSet) (s e : List Char) :
+    e ∈ (Re.set cs).ends s ↔ ∃ c, s = c :: e ∧ cs.has c = true := by
+  rw [det_set cs s, ← expect_some]
+  cases expect cs.has s <;> simp [eq_comm]
+
+theorem mem_seq_ends (a b : Re) (s e : List Char) :
+    e ∈ (seq a b).ends s ↔ ∃ e', e' ∈ a.ends s ∧ e ∈ b.ends e' := by
+  simp [Re.ends, List.mem_flatMap]
+
+theorem mem_alt_ends (a b : Re) (s e : List Char) : e ∈ (alt a b).ends s ↔ e ∈ a.ends s ∨ e ∈ b.ends s := by
+  simp [Re.ends]
+
+theorem mem_opt_set_ends (cs : CSet) (s e : List Char) :
+    e ∈ (opt (.set cs)).ends s ↔ e = s ∨ ∃ c, s = c :: e ∧ cs.has c = true := by
+  rw [ends_opt_set]
+  cases s with
+  | nil => simp
+  | cons c t =>
+    by_cases hc : cs.has c = true
+    · simp only [hc, if_true, List.mem_cons, List.not_mem_nil, or_false]
+      constructor
+      · rintro (rfl | rfl)
+        · exact Or.inr ⟨c, rfl, hc⟩
+        · exact Or.inl rfl
+      · rintro (rfl | ⟨c', h, _⟩)
+        · exact Or.inr rfl
+        · exact Or.inl (List.cons.inj h).2.symm
+    · simp only
+      rw [if_neg hc]
+      simp only [List.mem_cons, List.not_mem_nil, or_false]
+      constructor
+      · intro h; exact Or.inl h
+      · rintro (h | ⟨c', h, hc'⟩)
+        · exact h
+        · exact absurd ((List.cons.inj h).1 ▸ hc') hc
+
+theorem repSet_zero_zero (C : Char → Bool) (t : List Char) : repSet C 0 (some 0) t = [t] := by
+  cases t <;> simp [repSet]
+
+theorem mem_between12_ends (cs : CSet) (s e : List Char) (h : e ∈ (between 1 2 (.set cs)).ends s) :
+    (∃ c, s = c :: e ∧ cs.has c = true) ∨ (∃ c1 c2, s = c1 :: c2 :: e ∧ cs.has c1 = true ∧ cs.has c2 = true) := by
+  unfold between at h
+  rw [ends_rep_set] at h
+  cases s with
+  | nil => simp [repSet] at h
+  | cons c1 t =>
+    by_cases h1 : cs.has c1 = true
+    · cases t with
+      | nil => simp [repSet, h1] at h; subst h; exact Or.inl ⟨c1, rfl, h1⟩
+      | cons c2 t2 =>
+        by_cases h2 : cs.has c2 = true
+        · simp [repSet, h1, h2, repSet_zero_zero] at h
+          rcases h with rfl | rfl
+          · exact Or.inr ⟨c1, c2, rfl, h1, h2⟩
+          · exact Or.inl ⟨c1, rfl, h1⟩
+        · simp [repSet, h1, h2] at h; subst h; exact Or.inl ⟨c1, rfl, h1⟩
+    · simp [repSet, h1] at h
+
+/-- the pattern's exact octet policy: one or two digits (leading zeros allowed), or three digits `1dd`,
+    `2dd` with `d ≤ 4` in the middle, or `25d` with `d ≤ 5` -/
+def IsOctet (w : List Char) : Prop :=
+  (∀ c ∈ w, IsDigit c) ∧
+    (w.length = 1 ∨ w.length = 2 ∨ (∃ d1 d2, w = ['1', d1, d2]) ∨
+      (∃ d1 d2, w = ['2', d1, d2] ∧ (d1 ≤ '4' ∨ (d1 = '5' ∧ d2 ≤ '5'))))
+
+theorem has_range (lo hi c : Char) : (CSet.mk false [.r lo hi] false).has c = true ↔ (lo ≤ c ∧ c ≤ hi) := by
+  simp [CSet.has, Item.has]
+
+theorem mem_octet (s e : List Char) (h : e ∈ octetAst.ends s) : ∃ w, s = w ++ e ∧ IsOctet w := by
+  unfold octetAst at h
+  simp only [seqs] at h
+  rw [mem_alt_ends, mem_alt_ends] at h
+  have d2 : IsDigit '2' := by unfold IsDigit; decide
+  have d5 : IsDigit '5' := by unfold IsDigit; decide
+  have d1 : IsDigit '1' := by unfold IsDigit; decide
+  rcases h with h | h | h
+  · -- 25[0-5]
+    unfold lit cls at h
+    rw [mem_seq_ends] at h; obtain ⟨e1, h1, h⟩ := h
+    rw [mem_seq_ends] at h; obtain ⟨e2, h2, h3⟩ := h
+    obtain ⟨c1, rfl, hc1⟩ := (mem_set_ends _ _ _).1 h1
+    obtain ⟨c2, rfl, hc2⟩ := (mem_set_ends _ _ _).1 h2
+    obtain ⟨c3, rfl, hc3⟩ := (mem_set_ends _ _ _).1 h3
+    rw [has_lit] at hc1 hc2; subst hc1; subst hc2
+    rw [has_range] at hc3
+    refine ⟨['2', '5', c3], rfl, ?_, Or.inr (Or.inr (Or.inr ⟨'5', c3, rfl, Or.inr ⟨rfl, hc3.2⟩⟩))⟩
+    intro c hc; simp at hc
+    rcases hc with rfl | rfl | rfl
+    · exact d2
+    · exact d5
+    · exact ⟨hc3.1, Char.le_trans hc3.2 (by decide)⟩
+  · -- 2[0-4][0-9]
+    unfold lit cls at h
+    rw [mem_seq_ends] at h; obtain ⟨e1, h1, h⟩ := h
+    rw [mem_seq_ends] at h; obtain ⟨e2, h2, h3⟩ := h
+    obtain ⟨c1, rfl, hc1⟩ := (mem_set_ends _ _ _).1 h1
+    obtain ⟨c2, rfl, hc2⟩ := (mem_set_ends _ _ _).1 h2
+    obtain ⟨c3, rfl, hc3⟩ := (mem_set_ends _ _ _).1 h3
+    rw [has_lit] at hc1; subst hc1
+    rw [has_range] at hc2 hc3
+    refine ⟨['2', c2, c3], rfl, ?_, Or.inr (Or.inr (Or.inr ⟨c2, c3, rfl, Or.inl hc2.2⟩))⟩
+    intro c hc; simp at hc
+    rcases hc with rfl | rfl | rfl
+    · exact d2
+    · exact ⟨hc2.1, Char.le_trans hc2.2 (by decide)⟩
+    · exact hc3
+  · -- 1?[0-9]{1,2}
+    unfold lit cls at h
+    rw [mem_seq_ends] at h; obtain ⟨e1, h1, h⟩ := h
+    rw [mem_opt_set_ends] at h1
+    have hD := mem_between12_ends _ _ _ h
+    simp only [has_range] at hD
+    rcases h1 with rfl | ⟨c0, rfl, hc0⟩
+    · rcases hD with ⟨c, rfl, hc⟩ | ⟨c1, c2, rfl, hc1, hc2⟩
+      · exact ⟨[c], rfl, by intro x hx; simp at hx; subst hx; exact hc, Or.inl rfl⟩
+      · exact ⟨[c1, c2], rfl, by intro x hx; simp at hx; rcases hx with rfl | rfl; exact hc1; exact hc2,
+          Or.inr (Or.inl rfl)⟩
+    · rw [has_lit] at hc0; subst hc0
+      rcases hD with ⟨c, rfl, hc⟩ | ⟨c1, c2, rfl, hc1, hc2⟩
+      · exact ⟨['1', c], rfl, by intro x hx; simp at hx; rcases hx with rfl | rfl; exact d1; exact hc,
+          Or.inr (Or.inl rfl)⟩
+      · exact ⟨['1', c1, c2], rfl,
+          by intro x hx; simp at hx; rcases hx with rfl | rfl | rfl; exact d1; exact hc1; exact hc2,
+          Or.inr (Or.inr (Or.inl ⟨c1, c2, rfl⟩))⟩
+
+/-- documented syntax with the pattern's leading-zero policy: four octets separated by dots -/
+def IsIpv4 (s : List Char) : Prop :=
+  ∃ o1 o2 o3 o4, s = o1 ++ '.' :: (o2 ++ '.' :: (o3 ++ '.' :: o4)) ∧
+    IsOctet o1 ∧ IsOctet o2 ∧ IsOctet o3 ∧ IsOctet o4
+
+def dotOctet : Re := grp 2 (seq (lit '.') (grp 3 octetAst))
+
+theorem mem_dotOctet (s e : List Char) (h : e ∈ dotOctet.ends s) : ∃ w, s = '.' :: (w ++ e) ∧ IsOctet w := by
+  unfold dotOctet lit at h
+  simp only [Re.ends] at h
+  have h' : e ∈ (seq (.set ⟨false, [.c '.'], false⟩) octetAst).ends s := by simpa [Re.ends] using h
+  rw [mem_seq_ends] at h'
+  obtain ⟨e1, h1, h2⟩ := h'
+  obtain ⟨c, rfl, hc⟩ := (mem_set_ends _ _ _).1 h1
+  rw [has_lit] at hc; subst hc
+  obtain ⟨w, rfl, hw⟩ := mem_octet _ _ h2
+  exact ⟨w, rfl, hw⟩
+
+theorem dotOctet_progress (s e : List Char) (h : e ∈ dotOctet.ends s) : e.length < s.length := by
+  obtain ⟨w, rfl, _⟩ := mem_dotOctet s e h
+  simp; omega
+
+theorem ipv4_language_partial (s : List Char) (h : ipv4Ast.Accepts s) : IsIpv4 s := by
+  unfold Re.Accepts at h
+  have hmem : [] ∈ ipv4Ast.ends s := by
+    cases hl : ipv4Ast.ends s with
+    | nil => rw [hl] at h; simp at h
+    | cons a l => rw [hl] at h; simp at h; subst h; simp
+  have hdef : ipv4Ast = seq (grp 1 octetAst) (.rep dotOctet 3 (some 3) true) := rfl
+  rw [hdef, mem_seq_ends] at hmem
+  obtain ⟨e1, h1, h2⟩ := hmem
+  have h1' : e1 ∈ octetAst.ends s := by simpa [Re.ends] using h1
+  obtain ⟨o1, rfl, ho1⟩ := mem_octet _ _ h1'
+  rw [ends_rep_exact_succ dotOctet true 2 e1 (dotOctet_progress e1), List.mem_flatMap] at h2
+  obtain ⟨e2, h21, h2⟩ := h2
+  obtain ⟨o2, rfl, ho2⟩ := mem_dotOctet _ _ h21
+  rw [ends_rep_exact_succ dotOctet true 1 e2 (dotOctet_progress e2), List.mem_flatMap] at h2
+  obtain ⟨e3, h31, h2⟩ := h2
+  obtain ⟨o3, rfl, ho3⟩ := mem_dotOctet _ _ h31
+  rw [ends_rep_exact_succ dotOctet true 0 e3 (dotOctet_progress e3), List.mem_flatMap] at h2
+  obtain ⟨e4, h41, h2⟩ := h2
+  obtain ⟨o4, rfl, ho4⟩ := mem_dotOctet _ _ h41
+  rw [ends_rep_exact_zero] at h2
+  simp at h2; subst h2
+  exact ⟨o1, o2, o3, o4, by simp, ho1, ho2, ho3, ho4⟩
+
+example : ipv4Ast.Accepts "192.168.0.255".toList := by decide
+example : IsIpv4 "192.168.0.255".toList := ipv4_language_partial _ (by decide)
+example : ¬ ipv4Ast.Accepts "256.1.1.1".toList := by decide
+example : ¬ ipv4Ast.Accepts "1.1.1.1000".toList := by decide
+example : ipv4Ast.Accepts "01.00.9.1".toList := by decide
+
 end PP.C18
